@@ -40,7 +40,16 @@ Inductive c14case :=
    and what the real PackageSet held for package n after compiling under SHUFFLED listings and call order:
    Exports (name -> file), DirectDependencies (name -> that package's Exports), the keys of Files *)
 | CLoad (b : list (string * list (string * list string * list string * list string))) (n : string)
-        (exports : list (string * string)) (deps : list (string * list (string * string))) (files : list string).
+        (exports : list (string * string)) (deps : list (string * list (string * string))) (files : list string)
+(* CompilePackage as a whole (compile_and_link): the same bundle summary; the local prefixes of the source resolver;
+   packageForFile of every local path that occurs (computed by the harness's re-implementation of
+   SplitPackageFromFilename); the Dependency list of every file of every local package (what the model's converter
+   parameter returns for that output); the files of the dependency set reached through imports with THEIR imports
+   (the dependency resolver); observed: the files CompilePackage returned for package n, in order, each with the number
+   of files in the unfolding of its import tree (1 + the sum over its imports), read off the real linked descriptor *)
+| CLink (b : list (string * list (string * list string * list string * list string))) (n : string)
+        (prefixes : list string) (owners : list (string * string))
+        (outs : list (string * list string)) (exts : list (string * list string)) (observed : list (string * N)).
 
 Definition to_srcfile (f : string * list string * list string * list string) : @srcfile unit :=
   match f with
@@ -59,6 +68,17 @@ Definition mk_opts (opts : list (string * string)) : option (list opt) :=
     | Some l, Some i => Some (mkOpt 0 i (bytes_of_string (fst fp)) (bytes_of_string (snd fp)) :: l)
     | _, _ => None
     end) (Some []) opts.
+
+Fixpoint bprefix (p s : bytes) : bool :=
+  match p, s with
+  | [], _ => true
+  | x :: p', y :: s' => N.eqb x y && bprefix p' s'
+  | _ :: _, [] => false
+  end.
+Definition btable (t : list (string * list string)) : list (bytes * list bytes) :=
+  map (fun kv => (bytes_of_string (fst kv), map bytes_of_string (snd kv))) t.
+Definition bfind {V} (t : list (bytes * V)) (k : bytes) : option V :=
+  match find (fun kv => beqb (fst kv) k) t with Some kv => Some (snd kv) | None => None end.
 
 Definition c14_check (c : c14case) : bool :=
   match c with
@@ -87,6 +107,23 @@ Definition c14_check (c : c14case) : bool :=
           && list_eqb (fun x y => beqb (fst x) (fst y) && pairs_eqb (snd x) (snd y)) (p_deps p)
                       (map (fun d => (bytes_of_string (fst d), bpairs (snd d))) deps)
           && blist_eqb (map fst (p_files p)) (map bytes_of_string files)
+      | None => false
+      end
+  | CLink b n prefixes owners outs exts observed =>
+      let outs' := btable outs in
+      let exts' := btable exts in
+      let owners' := map (fun kv => (bytes_of_string (fst kv), bytes_of_string (snd kv))) owners in
+      let pre := map bytes_of_string prefixes in
+      (* a produced file the harness has no Dependency list for imports a path nobody can find: the case fails *)
+      let conv := fun (_ : env) (_ : @srcfile unit) (o : bytes) => match bfind outs' o with Some d => d | None => [[0]] end in
+      let is_local := fun p => existsb (fun x => bprefix x p) pre in
+      let owner := fun p => match bfind owners' p with Some q => q | None => [] end in
+      match compile_and_link conv (fun _ l => l) (fun _ l => l) (fun _ l => l) owner is_local (bfind exts') (fun d : list bytes => d)
+                             (fun _ ls => 1 + fold_left N.add ls 0)
+                             (S (length b)) (S (length outs + length exts)) (to_bundle b) [] [] (bytes_of_string n) with
+      | Some (_, _, out) =>
+          list_eqb (fun x y => beqb (fst x) (fst y) && N.eqb (snd x) (snd y)) out
+                   (map (fun kv => (bytes_of_string (fst kv), snd kv)) observed)
       | None => false
       end
   end.
